@@ -33,7 +33,7 @@ def load_corpus():
         meta = json.loads(d.read_text())
         if meta.get("property") and (d.parent / "patch.diff").exists():
             out.append(dict(id="seed-" + meta["seed_id"], prop=meta["property"], patch=str(d.parent / "patch.diff"), expect="fire",
-                            note="seeded: " + (meta.get("summary") or "")[:100]))
+                            allow_error=bool(meta.get("allow_error")), note="seeded: " + (meta.get("summary") or "")[:100]))
     # behaviour-preserving refactorings written by independent sub-agents (benign/<id>/pK.diff): no check may alarm on them
     lim = json.loads((VERIF / "benign" / "known_limitations.json").read_text()) if (VERIF / "benign" / "known_limitations.json").exists() else {}
     allp = [f"C{i:02d}" for i in range(1, 21)]
